@@ -410,3 +410,7 @@ def run(ctx):
     from ..report import run_sub
     run_sub(ctx, c09, {'R09.8': 'R05.5'})
     sides_compared_strictly(ctx, 'R05.6')
+
+
+from .extra import with_extra  # noqa: E402
+run = with_extra('C05', run)
